@@ -356,6 +356,9 @@ def check(ctx):
     for cfgname in ctx.configs(quick=('base',), thorough=('base', 'wire', 'nostd')):
         f = ctx.facts(cfgname)
         rep.cur_config = cfgname
+        from . import common as _common
+        _common.check_frame(f, rep, 'C10-R0')
+        _common.check_derives(f, rep, 'C10-R0')
         eff = Effects(f)
         r1_writers(ctx, f, rep, eff)
         r2_identity(ctx, f, rep, eff)
